@@ -17,6 +17,10 @@ from . import facts
 Q, L, F = 0x110000, 0x110001, 0x110002
 KNOT_NAMES = {Q: "Q", L: "L", F: "F"}
 KNOT_SHOW = {Q: "$", L: "@.x", F: "f()"}
+# a knot rule referenced from an atomic context is parsed WITHOUT implicit whitespace (pest: `skip` is a no-op unless the
+# state is NonAtomic, so @ and $ both cascade into the normal rules they call): its embedded language is a different one
+# and gets its own symbol while the model is built
+ATOMIC_VARIANT = {Q: 0x110003, L: 0x110004, F: 0x110005}
 
 BLANK = [[0x20, 0x20], [0x09, 0x09], [0x0A, 0x0A], [0x0D, 0x0D]]
 # char::is_whitespace == Unicode White_Space
@@ -345,6 +349,7 @@ class PestModel:
         self.filters = filters      # list of (context suffix tuple, function expr -> expr, description)
         self.applied = []           # descriptions of filters that found an occurrence
         self.predicates_dropped = []  # rule paths where a lookahead predicate could not be modelled exactly
+        self.atomic_knot_refs = set()  # knot rules referenced from an atomic context
         self.skip = self.skip_expr()
 
     def skip_expr(self):
@@ -390,7 +395,11 @@ class PestModel:
 
     def rule(self, name, top, ctx=(), atomic=False):
         if name in PEST_KNOTS and not top:
-            return tag("/".join((ctx + (name,))[-3:]), cset([[PEST_KNOTS[name], PEST_KNOTS[name]]]))
+            sym = PEST_KNOTS[name]
+            if atomic and self.g.rules.get(name, {}).get("ty") not in ("non_atomic",):
+                self.atomic_knot_refs.add(name)
+                sym = ATOMIC_VARIANT[sym]
+            return tag("/".join((ctx + (name,))[-3:]), cset([[sym, sym]]))
         if name in BUILTINS:
             return BUILTINS[name]
         if name not in self.g.rules:
@@ -425,8 +434,8 @@ class PestModel:
         if k == "range":
             return cset([[e["lo"], e["hi"]]])
         if k == "ident":
-            inner_atomic = False if compound else atomic
-            return self.rule(e["v"], False, ctx, inner_atomic)
+            # both @ and $ cascade: the generated `skip` tests the *dynamic* atomicity, which only a `!` rule resets
+            return self.rule(e["v"], False, ctx, atomic)
         if k == "seq":
             a = e["a"]
             if a["k"] in ("negpred", "pospred") and atomic:
@@ -611,6 +620,14 @@ class Comparison:
         impl["L"] = model.rule("logical_expr", True)
         impl["F"] = model.rule("function_expr", True)
         main = model.rule("main", True)
+        # atomic variants of knots (a knot referenced inside an @/$ rule): built until no new one appears
+        kname = {"jp_query": "Q", "logical_expr": "L", "function_expr": "F"}
+        done = set()
+        while model.atomic_knot_refs - done:
+            nm = sorted(model.atomic_knot_refs - done)[0]
+            done.add(nm)
+            impl[kname[nm] + "@atomic"] = model.rule(nm, True, (), True)
+            self.notes.append("knot `%s` is also parsed in an atomic context: its atomic variant is compared with the RFC separately" % nm)
         # main embeds jp_query as a *symbol*; the top-level comparison needs its body: rebuild with jp_query expanded
         main_e = self._expand_main(model)
         if self.pm.p1:
@@ -629,10 +646,20 @@ class Comparison:
             "F": rfc_expand(self.abnf, "function-expr"),
             "main": rfc_expand(self.abnf, "jsonpath-query"),
         }
+        # the variant symbols have done their job (selecting which bodies exist): the RFC has one symbol per knot
+        for k in list(impl):
+            for base, var in ATOMIC_VARIANT.items():
+                sub = _subst_symbol(impl[k], var, cset([[base, base]]))
+                if sub is not None:
+                    impl[k] = sub
+        for kn in ("Q", "L", "F"):
+            if kn + "@atomic" in impl:
+                rfc[kn + "@atomic"] = rfc[kn]
         self.impl, self.rfc = impl, rfc
         compare = [{"id": "main", "impl": impl["main"], "rfc": rfc["main"]}]
-        for kn in ("Q", "L", "F"):
-            compare.append({"id": kn, "impl": seq(WS, impl[kn], WS), "rfc": seq(WS, rfc[kn], WS)})
+        for kn in ("Q", "L", "F", "Q@atomic", "L@atomic", "F@atomic"):
+            if kn in impl:
+                compare.append({"id": kn, "impl": seq(WS, impl[kn], WS), "rfc": seq(WS, rfc[kn], WS)})
         # absorption side condition: in every body, every embedded knot symbol is surrounded by optional blank
         equiv = []
         for side, bodies in (("impl", impl), ("rfc", rfc)):
@@ -891,6 +918,28 @@ def _paren(e):
     return "(%s)" % t if e["k"] in ("seq", "choice") else t
 
 
+def normalized_path_expr():
+    """RFC 9535 2.7 normalized-path, indices within the I-JSON range (transcribed from the ABNF of section 2.7)."""
+    unesc = cset([[0x20, 0x26], [0x28, 0x5B], [0x5D, 0xD7FF], [0xE000, 0x10FFFF]])
+    hexd = cset([[0x30, 0x39], [0x61, 0x66]])
+    nhex = seq(lit("00"), alt(seq(ch("0"), cset([[0x30, 0x37]])), lit("0b"), seq(ch("0"), cset([[0x65, 0x66]])), seq(ch("1"), hexd)))
+    esc = seq(ch("\\"), alt(cset([[0x62, 0x62], [0x66, 0x66], [0x6E, 0x6E], [0x72, 0x72], [0x74, 0x74], [0x27, 0x27], [0x5C, 0x5C]]), seq(ch("u"), nhex)))
+    name = tag("rfc:normal-name-selector", seq(ch("'"), star(alt(tag("rfc:normal-unescaped", unesc), tag("rfc:normal-escapable", esc))), ch("'")))
+    index = tag("rfc:normal-index-selector", int_range(0, 2 ** 53 - 1))
+    return tag("rfc:normalized-path", seq(ch("$"), star(seq(ch("["), alt(name, index), ch("]")))))
+
+
+def np_divergences(result):
+    """Normalized paths (RFC 9535 2.7) the parser rejects: [(tags, class, witness)]"""
+    out = []
+    for cmp_ in result["engine"]["compare"]:
+        if cmp_["id"] == "np:normalized-path":
+            for d in cmp_["divergences"]:
+                if d["dir"] == "rfc-only":
+                    out.append(("+".join(d["tags"]), coarse_class(d["class"]), show_witness(d["witness"])))
+    return out
+
+
 def analyse(prog, grammar, tier="quick"):
     """Everything the grammar rules need, computed once per (sources, grammar, spec) and cached on disk."""
     import hashlib
@@ -914,6 +963,8 @@ def analyse(prog, grammar, tier="quick"):
     pm = ParserModel(prog)
     comp = Comparison(prog, grammar, pm, ABNF_PATH)
     spec = comp.build()
+    # every Normalized Path must be accepted by the parser (C09: a path that a query returns can be handed to reference())
+    spec["compare"].append({"id": "np:normalized-path", "impl": comp.impl["main"], "rfc": normalized_path_expr()})
     # PEG ordered-choice hazards: pairwise prefix-comparability of the alternatives of every choice
     overlaps = []
     meta = []
@@ -1009,6 +1060,8 @@ def divergences(result):
     {(dir, tags, class): {"witness": str, "where": comparison id, "at": int, "blank_related": bool}}"""
     out = {}
     for cmp_ in result["engine"]["compare"]:
+        if cmp_["id"].startswith("np:"):
+            continue
         for d in cmp_["divergences"]:
             k = (d["dir"], "+".join(d["tags"]), coarse_class(d["class"]))
             w = d["witness"]
